@@ -120,6 +120,22 @@ def apply_file(path, spec):
         if ins.get("header_contains") and ins["header_contains"] not in re.sub(r"\s+", " ", txt[off:close + 1]):
             raise core.MachineryError("EXTRACTION-BROKEN: header of loop %d of %s no longer contains %r" % (n, ins["function"], ins["header_contains"]))
         edits.append((close + 1, "\n" + "\n".join("    " + c for c in ins["clauses"]) + "\n"))
+    # assertions in front of a statement (e.g. 16-byte alignment of vector operands): anchored by function + exact statement text
+    for ins in spec.get("asserts", []):
+        body = find_function_body(blank, ins["function"])
+        if body is None:
+            raise core.MachineryError("EXTRACTION-BROKEN: function %s not found in %s" % (ins["function"], os.path.basename(path)))
+        pos, found = body[0], []
+        while True:
+            k = txt.find(ins["anchor"], pos, body[1])
+            if k < 0:
+                break
+            found.append(k)
+            pos = k + 1
+        if len(found) != ins.get("count", 1):
+            raise core.MachineryError("EXTRACTION-BROKEN: %s: statement %r occurs %d times, %d expected" % (ins["function"], ins["anchor"], len(found), ins.get("count", 1)))
+        for k in found:
+            edits.append((k, ins["text"] + "\n      "))
     for at, text in sorted(edits, reverse=True):
         txt = txt[:at] + text + txt[at:]
     if spec.get("prelude"):
@@ -152,6 +168,9 @@ def apply_all(srcdir, loopsdir):
         for ins in spec.get("insertions", []):
             for c in ins["clauses"]:
                 chk = chk.replace(c, "", 1)
+        for ins in spec.get("asserts", []):
+            for _ in range(ins.get("count", 1)):
+                chk = chk.replace(ins["text"], "", 1)
         for c in spec.get("prelude", []):
             chk = chk.replace(c, "", 1)
         if re.sub(r"\s+", "", chk) != re.sub(r"\s+", "", old):
